@@ -33,11 +33,14 @@ class AV:
         js = ("global", fn.module.name, "juniper_secrets")
         self.f_decrypt = ("global", JSM, "juniper_decrypt")
         self.f_encrypt = ("global", JSM, "juniper_nonrandom_encrypt")
-        self.MAGIC = ("global", JSM, "MAGIC")
+        try:
+            self.MAGIC = ("const", ctx.folder.module_const(JSM, "MAGIC"))
+        except Exception:
+            self.MAGIC = ("global", JSM, "MAGIC")
         self.DEC = ("call", self.f_decrypt, (self.V,), ())
         self.FMT = ("call", ("global", fn.module.name, self.f_fmt.name), (self.V,), ())
         self.BASE_fmt = "netconanRemoved{}"
-        self.BASE = ("call", ("attr", ("const", self.BASE_fmt), "format"), (("call", ("builtin", "len"), (self.lookup,), ()),), ())
+        self.BASE = M.fstr(self.BASE_fmt.replace("{}", ""), ("call", ("builtin", "len"), (self.lookup,), ()))
         self.js = js
         self.paths = [x for x in ctx.A.paths(fn).paths if x.feasible() and not self._none_key(x)]
 
